@@ -50,6 +50,16 @@ PROPS = {
         "namespace": "Richchk.Props.C01",
         "trusted": ["hand model of the chunk loop / STR string loop (Model/Chunk.lean, Model/Section.lean), tied by the rt/dec correspondence"],
     },
+    "C05": {
+        "targets": ["RichchkModel.Props.C05"],
+        "harness": "trig_h",
+        "theorems_file": "RichchkModel/Props/C05.lean",
+        "namespace": "Richchk.Props.C05",
+        "trusted": [
+            "Spec/TrigArgs.lean: hand transcription of the Scenario.chk action/condition argument tables (numbers, names, argument->field)",
+            "the translator's reading of each _decode/_encode as a keyword-constructed return (validated by the sentinel probe of the real transcoders)",
+        ],
+    },
     "C06": {
         "targets": ["RichchkModel.Props.C06"],
         "harness": "bytelayer",
@@ -136,7 +146,7 @@ def regenerate():
     return gaps, summary
 
 
-EXTRA_TRANSLATORS = ["tr_codecs"]  # each module exposes generate(gen_dir, build_dir, write_if_changed)
+EXTRA_TRANSLATORS = ["tr_codecs", "tr_trig"]  # each module exposes generate(gen_dir, build_dir, write_if_changed)
 
 
 def lake_build(targets, timeout=3000):
